@@ -8,7 +8,7 @@ TOPICS = ["t/a", "t/b", "t", "$x/a", "u/a"]
 
 def gen(rng):
     ops = [f"new mode={rng.choice(['overlap', 'onlyonce'])}", "conn p cp v=5 cs=1"]
-    if rng.random() < 0.5:
+    if rng.random() < 0.6:
         ops.append(f"pub p {rng.choice(TOPICS)} q=1 pid=1 r=1 tag=r0")       # a retained message: never replayed on a shared subscribe
     names = ["a", "b", "c"][:rng.choice([2, 3, 3])]
     gen_ = {n: 0 for n in names}
@@ -26,7 +26,8 @@ def gen(rng):
         pid += 1; sid += 1
         g = rng.choice(["g1", "g1", "g2"])
         f = rng.choice(FILTERS)
-        ops.append(f"sub {conn[n]} {pid} $share/{g}/{f}|{rng.choice([0, 1, 2])} id={sid}")
+        opt = rng.choice(["", "", "|rh1", "|rh0", "|rh2", "|rap"])      # Retain Handling never makes a shared subscribe replay
+        ops.append(f"sub {conn[n]} {pid} $share/{g}/{f}|{rng.choice([0, 1, 2])}{opt} id={sid}")
     for n in names:
         for _ in range(rng.choice([1, 1, 2])):
             join(n)
